@@ -31,8 +31,54 @@ Record proc := mkProc {
   got_kill : bool      (* has been sent SIGKILL by the controller *)
 }.
 
-(* the process cmd.Start() creates: index 0 of the table, pid = pgid when Setpgid *)
-Definition start_proc : proc := mkProc setpgid true false true false false.
+(* ---- ExecCommand (exec_linux.go): which *exec.Cmd the process-group attribute ends up on ----
+   Gen.exec_command_prog is the body of ExecCommand, statement by statement; it is run here for
+   every configuration of the executor and of the action. *)
+Inductive ns_policy := NsAlways | NsNever | NsSandbox.
+Record mode := mkMode {
+  m_policy : ns_policy;   (* e.namespace *)
+  m_builtin : bool;       (* e.usePleaseSandbox: re-exec `plz sandbox`; otherwise the external e.sandboxTool *)
+  m_sandboxed : bool      (* sandbox != NoSandbox for this action *)
+}.
+Definition no_sandbox : mode := mkMode NsNever false false.
+
+(* shouldNamespace := e.namespace == NamespaceAlways || ((e.namespace == NamespaceSandbox || e.usePleaseSandbox) && sandbox != NoSandbox)
+   (gotrans checks that the source still says exactly this) *)
+Definition should_namespace (m : mode) : bool :=
+  match m_policy m with NsAlways => true | _ => false end
+  || ((match m_policy m with NsSandbox => true | _ => false end || m_builtin m) && m_sandboxed m).
+
+(* the value of the variable cmd *)
+Record cmdobj := mkCmd {
+  attr_set : bool;    (* cmd.SysProcAttr != nil *)
+  group_set : bool;   (* cmd.SysProcAttr.Setpgid *)
+  crashed : bool;     (* a nil cmd.SysProcAttr was dereferenced *)
+  returned : bool     (* return cmd was reached *)
+}.
+
+Definition cond_holds (m : mode) (c : econd) : bool :=
+  match c with CSandboxed => m_sandboxed m | CBuiltin => m_builtin m | CNamespace => should_namespace m end.
+
+Fixpoint exec_stmt (m : mode) (s : estmt) (c : cmdobj) {struct s} : cmdobj :=
+  if returned c || crashed c then c else
+  match s with
+  | ENewCmd => mkCmd false false false false          (* a fresh command: no SysProcAttr, whatever the old one had *)
+  | ESetAttr b => mkCmd true b false false
+  | EModAttr => if attr_set c then c else mkCmd false (group_set c) true false
+  | ESkip => c
+  | EIf cd th el =>
+      let fix go (l : list estmt) (c : cmdobj) : cmdobj :=
+        match l with [] => c | x :: r => go r (exec_stmt m x c) end in
+      if cond_holds m cd then go th c else go el c
+  | EReturn => mkCmd (attr_set c) (group_set c) false true
+  end.
+
+Definition exec_command (m : mode) : cmdobj :=
+  fold_left (fun c s => exec_stmt m s c) exec_command_prog (mkCmd false false false false).
+
+(* the process cmd.Start() creates: index 0 of the table, pid = pgid when Setpgid was set on the
+   command that is actually started *)
+Definition start_proc (m : mode) : proc := mkProc (group_set (exec_command m)) true false true false false.
 
 (* fork: the child inherits group, signal dispositions and descriptors; pending signals are not inherited *)
 Definition child (x : proc) : proc := mkProc (in_group x) true (ign_term x) (holds_pipe x) false false.
@@ -72,7 +118,15 @@ Inductive pc :=
 | PcSelect                                (* select { case err = <-ch: case <-ctx.Done(): } *)
 | PcWait1 (armed : N)                     (* in sendSignal(SIG1, D1) after the kill, select{<-ch, <-time.After(D1)} *)
 | PcWait2 (armed : N) (consumed : bool)   (* in sendSignal(SIG2, D2); consumed = the first select already received from ch *)
+| PcDrain (armed : N) (consumed : bool)   (* killProcess returned; the timeout branch receives from ch once more (only if the source does) *)
 | PcRet (t : N) (e : err).                (* ExecWithTimeout returned e at time t *)
+
+(* the two facts about the channel that the source decides (Gen) *)
+Definition drains : bool := timeout_branch_recv_after_kill.   (* `<-ch` after e.KillProcess(cmd) *)
+Definition closes : bool := run_command_closes_chan.          (* runCommand closes ch after its send *)
+
+(* where the controller is once killProcess has returned at time t; consumed = the value was received *)
+Definition after_kill (t : N) (consumed : bool) : pc := if drains then PcDrain t consumed else PcRet t ErrDeadline.
 
 Record state := mkState { now : N; ctl : pc; procs : list proc }.
 
@@ -85,7 +139,7 @@ Inductive event :=
 | EEscape (p : nat)            (* process p leaves the group: setsid() / setpgid() *)
 | ESetIgn (p : nat) (b : bool) (* process p changes its SIGTERM disposition *)
 | EClosePipe (p : nat)         (* process p closes/redirects its copies of the output pipes *)
-| CStart (ok : bool)           (* cmd.Start() returns *)
+| CStart (ok : bool) (m : mode) (* ExecCommand built the command for configuration m; cmd.Start() returns *)
 | CChan                        (* the outer select receives from ch *)
 | CDeadline                    (* the outer select receives from ctx.Done(); err = ctx.Err(); KillProcess -> first kill *)
 | CRecv                        (* the select inside sendSignal receives from ch *)
@@ -125,6 +179,7 @@ Definition step (os : os_model) (T lat : N) (st : state) (e : event) : option st
                 | PcSelect => n <=? T + lat
                 | PcWait1 a => n <=? a + d1 + lat
                 | PcWait2 a _ => n <=? a + d2 + lat
+                | PcDrain a k => if k && closes then n <=? a + lat else true   (* a receive that nothing forces to happen *)
                 | PcRet _ _ => true
                 end in
       if ok then Some (mkState n (ctl st) (procs st)) else None
@@ -137,10 +192,12 @@ Definition step (os : os_model) (T lat : N) (st : state) (e : event) : option st
   | EEscape p => with_procs st (upd p f_escape (procs st))
   | ESetIgn p b => with_procs st (upd p (f_setign b) (procs st))
   | EClosePipe p => with_procs st (upd p f_close (procs st))
-  | CStart ok =>
+  | CStart ok m =>
       match ctl st with
-      | PcInit => if ok then Some (mkState (now st) PcSelect [start_proc])
-                  else Some (mkState (now st) (PcRet (now st) ErrStart) [])
+      | PcInit => if returned (exec_command m) && negb (crashed (exec_command m)) then
+                    if ok then Some (mkState (now st) PcSelect [start_proc m])
+                    else Some (mkState (now st) (PcRet (now st) ErrStart) [])
+                  else None   (* ExecCommand panicked: outside the model (proved impossible) *)
       | _ => None
       end
   | CChan =>
@@ -161,17 +218,23 @@ Definition step (os : os_model) (T lat : N) (st : state) (e : event) : option st
                      then Some (mkState (now st) (PcWait2 (now st) true) (os_kill os kill_group sig2 (procs st)))
                      else None
       | PcWait2 _ false => if os_wait_done os (procs st)
+                           then Some (mkState (now st) (after_kill (now st) true) (procs st))
+                           else None
+      | PcWait2 _ true =>   (* nobody will ever send on ch again; a closed channel can be received from *)
+          if closes then Some (mkState (now st) (after_kill (now st) true) (procs st)) else None
+      | PcDrain _ false => if os_wait_done os (procs st)
                            then Some (mkState (now st) (PcRet (now st) ErrDeadline) (procs st))
                            else None
-      | _ => None   (* PcWait2 _ true: nobody will ever send on ch again *)
+      | PcDrain _ true => if closes then Some (mkState (now st) (PcRet (now st) ErrDeadline) (procs st)) else None
+      | _ => None
       end
   | CExpire =>
       match ctl st with
       | PcWait1 a => if a + d1 <=? now st
                      then Some (mkState (now st) (PcWait2 (now st) false) (os_kill os kill_group sig2 (procs st)))
                      else None
-      | PcWait2 a _ => if a + d2 <=? now st
-                       then Some (mkState (now st) (PcRet (now st) ErrDeadline) (procs st))
+      | PcWait2 a k => if a + d2 <=? now st
+                       then Some (mkState (now st) (after_kill (now st) k) (procs st))
                        else None
       | _ => None
       end
@@ -184,11 +247,19 @@ Fixpoint run (os : os_model) (T lat : N) (st : state) (tr : list event) : option
   end.
 
 Definition is_controller (e : event) : bool :=
-  match e with CStart _ | CChan | CDeadline | CRecv | CExpire => true | _ => false end.
+  match e with CStart _ _ | CChan | CDeadline | CRecv | CExpire => true | _ => false end.
 
 (* the one known defect class: some process gave up its copies of the output pipes *)
 Definition detaches (tr : list event) : bool :=
   existsb (fun e => match e with EClosePipe _ => true | _ => false end) tr.
+
+(* some process left the process group (setsid, setpgid, daemonising) *)
+Definition escapes (tr : list event) : bool :=
+  existsb (fun e => match e with EEscape _ => true | _ => false end) tr.
+
+(* the controller's steps that depend on nothing but clocks: no receive from ch anywhere *)
+Definition timer_only (e : event) : bool :=
+  match e with Tick _ | CStart _ _ | CDeadline | CExpire => true | _ => false end.
 
 (* ---- correspondence: a generated command, described as a process tree, and what was observed ---- *)
 Record pspec := mkSpec {
@@ -200,7 +271,7 @@ Record pspec := mkSpec {
 }.
 
 Inductive case :=
-| Case (specs : list pspec) (T : N)
+| Case (m : mode) (specs : list pspec) (T : N)
        (timed_out : bool)          (* the returned error was context.DeadlineExceeded; otherwise it was nil *)
        (sigs : list N)             (* signals the executor logged, in order *)
        (t_term gap1 gap2 : N)      (* ms: start -> first signal, first -> second signal, second signal -> return *)
@@ -250,8 +321,8 @@ Definition survivors_ok (specs : list pspec) (T : N) (st : state) (ret scan surv
   | None => false
   end.
 
-Definition started (specs : list pspec) (T : N) : option state :=
-  go T init (CStart true :: setup_from 0 specs).
+Definition started (m : mode) (specs : list pspec) (T : N) : option state :=
+  go T init (CStart true m :: setup_from 0 specs).
 
 Definition is_ret (e : err) (st : state) : bool :=
   match ctl st, e with
@@ -263,37 +334,37 @@ Definition is_ret (e : err) (st : state) : bool :=
 (* the three ways through killProcess *)
 Inductive path := PTermOk | PKillOk | PKillExpired.
 
-Definition timeout_path (specs : list pspec) (T t_term gap1 gap2 : N) (p : path) : option state :=
-  bind (started specs T) (fun s0 =>
+Definition timeout_path (m : mode) (specs : list pspec) (T t_term gap1 gap2 : N) (p : path) : option state :=
+  bind (started m specs T) (fun s0 =>
   bind (go T s0 [Tick t_term]) (fun s1 =>
   bind (reap specs T s1 t_term) (fun s2 =>
   bind (go T s2 [CDeadline; Tick gap1]) (fun s3 =>
   bind (reap specs T s3 (t_term + gap1)) (fun s4 =>
   bind (go T s4 [match p with PTermOk => CRecv | _ => CExpire end; Tick gap2]) (fun s5 =>
   bind (reap specs T s5 (t_term + gap1 + gap2)) (fun s6 =>
-  go T s6 [match p with PKillOk => CRecv | _ => CExpire end]))))))).
+  go T s6 ((match p with PKillOk => CRecv | _ => CExpire end) :: (if drains then [CRecv] else []))))))))).
 
-Definition normal_path (specs : list pspec) (T elapsed : N) : option state :=
-  bind (started specs T) (fun s0 =>
+Definition normal_path (m : mode) (specs : list pspec) (T elapsed : N) : option state :=
+  bind (started m specs T) (fun s0 =>
   bind (go T s0 [Tick elapsed]) (fun s1 =>
   bind (reap specs T s1 elapsed) (fun s2 =>
   go T s2 [CChan]))).
 
 Definition check (c : case) : bool :=
   match c with
-  | Case specs T timed_out sigs t_term gap1 gap2 elapsed scan surv_in surv_out =>
+  | Case m specs T timed_out sigs t_term gap1 gap2 elapsed scan surv_in surv_out =>
       if timed_out then
         list_eqb N.eqb sigs [sig1; sig2]
         && (t_term + gap1 + gap2 <=? elapsed) && (elapsed <=? t_term + gap1 + gap2 + 2)
         && existsb (fun p =>
-             match timeout_path specs T t_term gap1 gap2 p with
+             match timeout_path m specs T t_term gap1 gap2 p with
              | Some st => is_ret ErrDeadline st
                           && survivors_ok specs T st (t_term + gap1 + gap2) scan surv_in surv_out
              | None => false
              end) [PTermOk; PKillOk; PKillExpired]
       else
         list_eqb N.eqb sigs []
-        && match normal_path specs T elapsed with
+        && match normal_path m specs T elapsed with
            | Some st => is_ret ErrNone st && survivors_ok specs T st elapsed scan surv_in surv_out
            | None => false
            end
